@@ -58,6 +58,11 @@ fn walk(ctx: &mut Ctx, tag: Value, pc: u32, er: [u32; 8], ccr: u8, exit: Option<
     init.ccr = ccr;
     ctx.continue_open = true;
     ctx.seq_tag = Some(tag);
+    let c20 = ctx.seq_owner == Some("C20");
+    if c20 {
+        ctx.cycles_only = true;
+        ctx.closed_form_cost = true;
+    }
     let n = ctx.run_seq_body(&init, Act::Step, max, &mut |o: &StepObs| {
         if Some(o.post_pc) == exit {
             Next::Stop
@@ -67,6 +72,10 @@ fn walk(ctx: &mut Ctx, tag: Value, pc: u32, er: [u32; 8], ccr: u8, exit: Option<
     });
     ctx.continue_open = false;
     ctx.seq_tag = None;
+    if c20 {
+        ctx.cycles_only = false;
+        ctx.closed_form_cost = false;
+    }
     n
 }
 
@@ -114,12 +123,40 @@ fn counters(isa: &Isa) -> Vec<(&'static str, Vec<u8>, bool, u8)> {
         ("ADD.W #-1,R2", e("ADD.W #xx:16,Rd", Fields { rd: 2, data: 0xffff, ..f() }), true, 2),
         ("MOV.L ER2,ER2 ; ADD.L #-1,ER2", [e("MOV.L ERs,ERd", Fields { rs: 2, rd: 2, ..f() }), e("ADD.L #xx:32,ERd", Fields { rd: 2, data: 0xffff_ffff, ..f() })].concat(), true, 4),
         ("SUB.L #1,ER2", e("SUB.L #xx:32,ERd", Fields { rd: 2, data: 1, ..f() }), true, 4),
+        ("ADD.L #-1,ER2 ; MOV.L ER2,ER2", [e("ADD.L #xx:32,ERd", Fields { rd: 2, data: 0xffff_ffff, ..f() }), e("MOV.L ERs,ERd", Fields { rs: 2, rd: 2, ..f() })].concat(), true, 4),
+        ("ADD.L #-3,ER2 ; MOV.L ER2,ER2", [e("ADD.L #xx:32,ERd", Fields { rd: 2, data: 0xffff_fffd, ..f() }), e("MOV.L ERs,ERd", Fields { rs: 2, rd: 2, ..f() })].concat(), true, 4),
         ("ADD.B #-1,R2L", e("ADD.B #xx:8,Rd", Fields { rd: 10, data: 0xff, ..f() }), true, 1),
         ("INC.W #1,R2 ; CMP.W R3,R2", [e("INC.W #1,Rd", Fields { rd: 2, ..f() }), e("CMP.W Rs,Rd", Fields { rs: 3, rd: 2, ..f() })].concat(), false, 2),
         ("INC.L #1,ER2 ; CMP.L ER3,ER2", [e("INC.L #1,ERd", Fields { rd: 2, ..f() }), e("CMP.L ERs,ERd", Fields { rs: 3, rd: 2, ..f() })].concat(), false, 4),
         ("ADDS #1,ER2 ; CMP.L ER3,ER2", [e("ADDS #1,ERd", Fields { rd: 2, ..f() }), e("CMP.L ERs,ERd", Fields { rs: 3, rd: 2, ..f() })].concat(), false, 4),
         ("INC.B R2L ; CMP.B R3L,R2L", [e("INC.B Rd", Fields { rd: 10, ..f() }), e("CMP.B Rs,Rd", Fields { rs: 11, rd: 10, ..f() })].concat(), false, 1),
     ]
+}
+
+/// every one-operand register form (shifts, rotates, NOT, NEG, EXTU, INC, DEC, ADDS, SUBS) and every two-operand
+/// register / immediate form on ER4 / ER5 / ER6, once each: the loop body that makes every ALU form "hot"
+fn alu_body(isa: &Isa, which: usize) -> Vec<u8> {
+    use crate::hv::isa::{Sem, ROWS};
+    let mut c = Vec::new();
+    for (row, r) in ROWS.iter().enumerate() {
+        if !r.imp {
+            continue;
+        }
+        let f = match r.sem {
+            Sem::Alu1 { sz, .. } if which == 0 => Some(Fields { rd: if sz == crate::hv::isa::Sz::B { 12 } else { 4 }, ..Fields::default() }),
+            Sem::Adds(_) | Sem::Subs(_) if which == 0 => Some(Fields { rd: 4, ..Fields::default() }),
+            Sem::Alu2 { sz, imm, .. } if which == 1 => {
+                let b = sz == crate::hv::isa::Sz::B;
+                Some(Fields { rs: if b { 13 } else { 5 }, rd: if b { 14 } else { 6 }, data: if imm { 0x8001_7f03 & sz.mask() } else { 0 }, ..Fields::default() })
+            }
+            Sem::Mulxu(sz) if which == 1 => Some(Fields { rs: if sz == crate::hv::isa::Sz::B { 13 } else { 5 }, rd: 6, ..Fields::default() }),
+            _ => None,
+        };
+        if let Some(f) = f {
+            c.extend(isa.encode(row, &f));
+        }
+    }
+    c
 }
 
 fn bodies(isa: &Isa) -> Vec<Vec<u8>> {
@@ -130,13 +167,15 @@ fn bodies(isa: &Isa) -> Vec<Vec<u8>> {
         e("ADD.L ERs,ERd", Fields { rs: 4, rd: 5, ..f() }),
         [e("MOV.W Rs,@-ERd", Fields { rs: 4, ra: 7, ..f() }), e("MOV.W @ERs+,Rd", Fields { ra: 7, rd: 6, ..f() })].concat(),
         [e("BSR d:8", Fields { data: 2, ..f() }), e("Bcc d:8", Fields { cc: 0, data: 2, ..f() }), e("RTS", f())].concat(),
+        alu_body(isa, 0),
+        alu_body(isa, 1),
     ]
 }
 
 /// conditions under which a count-down (to zero / below zero) or count-up (compare with limit) loop repeats
 fn branch_ccs(down: bool) -> Vec<u8> {
     if down {
-        vec![6, 0xa, 0xe, 2] // BNE, BPL, BGT, BHI
+        vec![6, 0xa, 0xe, 2, 0xc] // BNE, BPL, BGT, BHI, BGE
     } else {
         vec![6, 0xd, 5] // BNE, BLT, BCS (BLO)
     }
@@ -152,7 +191,14 @@ pub fn loop_specs(tier: Tier) -> Vec<LoopSpec> {
         let down = counters(&isa)[c].2;
         for cc in branch_ccs(down) {
             for b in 0..nb {
+                // the two bodies that contain every ALU form: with three counter idioms and BNE only, long count only
+                if b >= 4 && !(cc == 6 && matches!(c, 1 | 3 | 13)) {
+                    continue;
+                }
                 for &count in counts.iter() {
+                    if b >= 4 && count < 1000 {
+                        continue;
+                    }
                     v.push(LoopSpec { counter: c, cc, body: b, count, in_dram: (c + b) % 2 == 1 });
                 }
             }
@@ -172,8 +218,13 @@ pub fn build_loop(isa: &Isa, s: &LoopSpec) -> (u32, Vec<u8>, [u32; 8], u32) {
     code.extend_from_slice(body);
     code.extend_from_slice(ccode);
     // branch back to the top: displacement counted from the address behind the branch
-    let disp = -((code.len() + 2) as i32);
-    code.extend(isa.encode(isa.row("Bcc d:8"), &Fields { cc: s.cc, data: (disp as u32) & 0xff, ..Fields::default() }));
+    if code.len() + 2 <= 126 {
+        let disp = -((code.len() + 2) as i32);
+        code.extend(isa.encode(isa.row("Bcc d:8"), &Fields { cc: s.cc, data: (disp as u32) & 0xff, ..Fields::default() }));
+    } else {
+        let disp = -((code.len() + 4) as i32);
+        code.extend(isa.encode(isa.row("Bcc d:16"), &Fields { cc: s.cc, data: (disp as u32) & 0xffff, ..Fields::default() }));
+    }
     let end = base + code.len() as u32;
     // benign tail
     code.extend_from_slice(&[0xf0, 0x00, 0xf0, 0x00, 0xf0, 0x00]);
@@ -182,9 +233,9 @@ pub fn build_loop(isa: &Isa, s: &LoopSpec) -> (u32, Vec<u8>, [u32; 8], u32) {
         2 => 0xffff,
         _ => 0xffff_ffff,
     };
-    let mut er = [0x1111_0000u32, 0x2222_0000, 0, 0, 0x0000_0003, 0x0000_1000, 0, if s.in_dram { 0x4c_0000 } else { 0xff_e000 }];
+    let mut er = [0x1111_0000u32, 0x2222_0000, 0, 0, 0x8002_8003, 0x0000_1003, 0x8421_c3a5, if s.in_dram { 0x4c_0000 } else { 0xff_e000 }];
     if *down {
-        let step = if cs[s.counter].0.contains("#2") { 2 } else { 1 };
+        let step = if cs[s.counter].0.contains("#2") { 2 } else if cs[s.counter].0.contains("#-3") { 3 } else { 1 };
         er[2] = 0xabcd_0000 & !mask | ((s.count * step) & mask);
     } else {
         er[2] = 0x5a5a_0000 & !mask;
@@ -287,6 +338,8 @@ fn run_loaded(ctx: &mut Ctx, prop: &'static str, chunk: u64, nchunks: u64) {
     let victims: Vec<usize> = sigma.iter().enumerate().filter(|(_, s)| s.owners.contains(&prop)).map(|(i, _)| i).collect();
     let init = xseq::init_case_pub(&l);
     ctx.track_queue = true;
+    ctx.cycles_only = prop == "C20";
+    ctx.closed_form_cost = prop == "C20";
     for (ai, a) in sigma.iter().enumerate() {
         if ai as u64 % nchunks != chunk {
             continue;
@@ -299,7 +352,42 @@ fn run_loaded(ctx: &mut Ctx, prop: &'static str, chunk: u64, nchunks: u64) {
         }
     }
     ctx.track_queue = false;
+    ctx.cycles_only = false;
+    ctx.closed_form_cost = false;
     ctx.m = Mach::new();
+}
+
+fn run_straight_or_idle(ctx: &mut Ctx, prop: &'static str, chunk: u64) {
+    let isa = Isa::new();
+    ctx.seq_owner = Some(prop);
+    if chunk < 2 {
+        let base = if chunk == 0 { 0xff_c100u32 } else { 0x42_0000 };
+        let mut code: Vec<u8> = Vec::new();
+        let unit = [alu_body(&isa, 0), alu_body(&isa, 1)].concat();
+        while code.len() + unit.len() < 0x2f00 {
+            code.extend_from_slice(&unit);
+        }
+        let end = base + code.len() as u32;
+        code.extend_from_slice(&[0xf0, 0x00, 0xf0, 0x00]);
+        ctx.m.poke_bytes(base, &code);
+        let er = [0x1111_0000u32, 0x2222_0000, 0x3333_0000, 0x4444_0000, 0x8002_8003, 0x0000_1003, 0x8421_c3a5, 0x00ff_e000];
+        let n = walk(ctx, json!({"oracle": "long-program", "kind": "straight", "chunk": chunk, "prop": prop}), base, er, 0, Some(end), 8000);
+        *ctx.st.notes.entry("straight-line steps".into()).or_insert(0) += n as u64;
+    } else {
+        let base = if chunk == 2 { 0xff_c100u32 } else { 0x42_0000 };
+        // BRA . (40 FE)
+        ctx.m.poke_bytes(base, &[0x40, 0xfe]);
+        let er = crate::hv::dom::background_regs();
+        let n = walk(ctx, json!({"oracle": "long-program", "kind": "idle", "chunk": chunk, "prop": prop}), base, er, 0, None, 12_000);
+        // BTST #0,@H'10:8 ; BEQ .-4   (polls a byte that stays 0)
+        let mut poll = isa.encode(isa.row("BTST #xx:3,@aa:8"), &Fields { bitn: 0, data: 0x10, ..Fields::default() });
+        poll.extend(isa.encode(isa.row("Bcc d:8"), &Fields { cc: 7, data: 0xfa, ..Fields::default() }));
+        ctx.m.poke_bytes(base + 0x40, &poll);
+        ctx.m.poke(0xff_ff10, 0x00);
+        let n2 = walk(ctx, json!({"oracle": "long-program", "kind": "idle", "chunk": chunk, "prop": prop}), base + 0x40, er, 0, None, 12_000);
+        *ctx.st.notes.entry("idle-loop steps".into()).or_insert(0) += (n + n2) as u64;
+    }
+    ctx.seq_owner = None;
 }
 
 pub fn units(prop: &'static str, tier: Tier) -> Vec<Unit> {
@@ -340,6 +428,13 @@ pub fn units(prop: &'static str, tier: Tier) -> Vec<Unit> {
             }
         },
     ));
+    // ---- long straight-line code (no taken branch for more than 1024 instruction words) and idle loops
+    units.push(Unit::new(
+        "programs/straight-and-idle",
+        4,
+        "chunks 0-1: 2600 instructions without any branch (every implemented register / immediate ALU and MOV form in turn, cycled), in on-chip RAM and in DRAM; chunks 2-3: the idle loops `BRA .` and `BTST #0,@aa:8 ; BEQ .-4` executed 12,000 times at one address; every step in lock step with the reference",
+        move |ctx, chunk| run_straight_or_idle(ctx, prop, chunk),
+    ));
     // ---- the collision alphabet on a loaded machine
     units.push(Unit::new(
         "programs/loaded-machine",
@@ -360,6 +455,7 @@ pub fn replay(ctx: &mut Ctx, tag: &Value) {
         "C05" => "C05",
         "C06" => "C06",
         "C07" => "C07",
+        "C20" => "C20",
         _ => "C08",
     };
     match tag["kind"].as_str() {
@@ -368,6 +464,7 @@ pub fn replay(ctx: &mut Ctx, tag: &Value) {
             let max = tag["max"].as_u64().unwrap_or(400_000) as usize;
             let _ = run_example(ctx, prop, &name, max);
         }
+        Some("straight") | Some("idle") => run_straight_or_idle(ctx, prop, tag["chunk"].as_u64().unwrap_or(0)),
         Some("loop") => {
             let i = tag["index"].as_u64().unwrap_or(0) as usize;
             for tier in [Tier::Quick, Tier::Thorough] {
